@@ -144,6 +144,8 @@ fn choose_transfer_encoding(
             let mut parse = util::parse_header_value(value.as_str()); // TODO: remove conversion
 
             // sorting elements by most priority
+            // (a NaN weight is not comparable: the ordering would not be total)
+            parse.retain(|elem| !elem.1.is_nan());
             parse.sort_by(|a, b| b.1.partial_cmp(&a.1).unwrap_or(Ordering::Equal));
 
             // trying to parse each requested encoding
